@@ -348,10 +348,11 @@ P_C01(x) == (Accepted(x) /\ (IsPrim(x.c) => (PFValid(x.pf) /\ PrimPre(x.pre, x.c
 P_URValid(x) == (PFValid(x.pf) /\ Accepted(x) /\ ~IsPrim(x.c)) => (Valid(x.u_post) /\ Valid(x.r_post))
 
 \* --- C07..C09 ------------------------------------------------------------
-P_C07(x) == (HasSeg /\ x.pf.forest /\ x.pf.seg /\ x.ok /\ ~IsPrim(x.c)) =>
+\* (labels and nodes must correspond after a REFUSED action too - "after any sequence of user actions")
+P_C07(x) == (HasSeg /\ x.pf.forest /\ x.pf.seg /\ ~IsPrim(x.c) /\ ~IsSwitch(x.c)) =>
     /\ SegOK(x.post)
-    /\ (x.c[1] = KPaint => \A q \in Stroke(x.c[2], x.c[3]) : x.post.seg[q] = x.c[4])
-    /\ (x.c[1] = KPaint => \A q \in Pix \ Stroke(x.c[2], x.c[3]) : x.post.seg[q] = x.pre.seg[q])
+    /\ (x.ok /\ x.c[1] = KPaint) => \A q \in Stroke(x.c[2], x.c[3]) : x.post.seg[q] = x.c[4]
+    /\ (x.ok /\ x.c[1] = KPaint) => \A q \in Pix \ Stroke(x.c[2], x.c[3]) : x.post.seg[q] = x.pre.seg[q]
 P_C08(x) == (HasSeg /\ PFValid(x.pf) /\ x.ok /\ ~IsSwitch(x.c) /\ ~IsPrim(x.c)) => (AreaOK(x.post) /\ PosOK(x.post) /\ ShapeOK(x.post))
 P_C09(x) == (HasSeg /\ PFValid(x.pf) /\ x.ok /\ ~IsPrim(x.c) /\ (IsSwitch(x.c) => x.c[1] = KEnable /\ x.c[3] = 1)) => IoUOK(x.post)
 
